@@ -8,6 +8,8 @@
 (*  SysKill the writer killed before its k-th traced system call              *)
 (*  Conc    n concurrent writer processes and polling readers                 *)
 (*  Compile the file-to-file entry point compile_clvm with a crash point      *)
+(*  Fault   compile_clvm / gentle_overwrite under a file size limit that      *)
+(*          stops the staged write part way                                    *)
 (* The one-writer program of AtomicWrite.tla (instantiated with one writer,   *)
 (* one chunk) gives the admissible label sequences and final states.          *)
 EXTENDS Integers, Sequences, FiniteSets, TLC, Json, IOUtils
@@ -54,9 +56,16 @@ ConcOk(e) == /\ \A i \in 1..Len(e.observations) : Intact(e.kind, e.observations[
 
 CompileOk(e) == e.final \in {"old", "new:compiled"} /\ (e.crash_at \in {"", "atomic.persisted"} => e.final = "new:compiled")
 
+\* Fault: the staged write was stopped part way by the environment (file size limit); AtomicWrite!WriteFails with
+\* OnError = "report": the target is as it was, equal contents still succeed, a failure is not reported as success
+FaultOk(e) == /\ Intact(e.kind, e.final)
+              /\ (Same(e.kind) => e.result = "ok")
+              /\ (e.result = "ok" /\ ~Same(e.kind) => e.final \notin {"old", "absent"})
+              /\ (e.fault_hit /\ ~Same(e.kind) => (e.result = "err" /\ e.final = (IF Existed(e.kind) THEN "old" ELSE "absent")))
+
 VARIABLES l, bad, cnt
 vars == <<l, bad, cnt>>
-Init == l = 1 /\ bad = {} /\ cnt = [Hook |-> 0, Sys |-> 0, SysKill |-> 0, Conc |-> 0, Compile |-> 0, reached |-> {}]
+Init == l = 1 /\ bad = {} /\ cnt = [Hook |-> 0, Sys |-> 0, SysKill |-> 0, Conc |-> 0, Compile |-> 0, Fault |-> 0, reached |-> {}]
 Next == /\ l <= Len(Rec) /\ l' = l + 1
         /\ LET e == Rec[l]
                ok == CASE e.ev = "Hook" -> HookOk(e)
@@ -64,6 +73,7 @@ Next == /\ l <= Len(Rec) /\ l' = l + 1
                        [] e.ev = "SysKill" -> Intact(e.kind, e.final)
                        [] e.ev = "Conc" -> ConcOk(e)
                        [] e.ev = "Compile" -> CompileOk(e)
+                       [] e.ev = "Fault" -> FaultOk(e)
                        [] OTHER -> TRUE
            IN /\ bad' = IF ok THEN bad ELSE bad \cup {l}
               /\ cnt' = [cnt EXCEPT ![e.ev] = @ + 1,
